@@ -17,7 +17,7 @@ let rec p_re ts = match ts with
   | "(" :: "alt" :: r -> let (a, r) = p_re r in let (b, r) = p_re r in (RAlt (a, b), close r)
   | "(" :: "star" :: r -> let (a, r) = p_re r in (RStar a, close r)
   | "(" :: "rep" :: r -> let (a, r) = p_re r in (match r with
-      | n :: m :: ")" :: r -> (RRep (a, nat_of_int (int_of_string n), (if m = "inf" then None else Some (nat_of_int (int_of_string m)))), r)
+      | n :: m :: ")" :: r -> (rrep a (nat_of_int (int_of_string n)) (if m = "inf" then None else Some (nat_of_int (int_of_string m))), r)
       | _ -> raise (Parse "rep"))
   | "(" :: "bol" :: ")" :: r -> (RStart, r) | "(" :: "eol" :: ")" :: r -> (REnd, r)
   | "(" :: "wb" :: ")" :: r -> (RWordB, r) | "(" :: "nwb" :: ")" :: r -> (RNonWordB, r)
